@@ -1,0 +1,40 @@
+//go:build verif
+
+package crypto
+
+import "sync"
+
+// Verification-only recorder of derived session keys. The harness installs
+// VerifOnDerive to learn every session key derived in this process (and by
+// which role) so that it can check that relayed payloads are sealed under a
+// tunnel's end-to-end key.
+
+var (
+	verifMu sync.Mutex
+	// VerifOnDerive, when set, is called with a copy of the key bytes of
+	// every key DeriveSessionKey returns.
+	VerifOnDerive func(key [KeySize]byte, isInitiator bool)
+)
+
+func verifRecordDerived(sk *SessionKey) {
+	verifMu.Lock()
+	f := VerifOnDerive
+	verifMu.Unlock()
+	if f != nil {
+		f(sk.key, sk.isInitiator)
+	}
+}
+
+// VerifSetOnDerive installs the recorder.
+func VerifSetOnDerive(f func(key [KeySize]byte, isInitiator bool)) {
+	verifMu.Lock()
+	VerifOnDerive = f
+	verifMu.Unlock()
+}
+
+// VerifKeyBytes returns a copy of the key bytes.
+func (s *SessionKey) VerifKeyBytes() [KeySize]byte {
+	s.mu.Lock()
+	defer s.mu.Unlock()
+	return s.key
+}
